@@ -30,9 +30,14 @@ RULE = ("cases: (network, kind, hash) for kind in P2PKH/P2SH/P2WPKH/P2WSH/P2TR x
         "subkey; the identity paths of a plain key; every history opens with one of 15 opening classes (each first query, "
         "ku first, copy first, query then copy, both forms then copy, derive first, copy then original) and ends with all "
         "six judged queries on every object of the history in random order. "
+        "keys additionally the two fixed secrets whose public point has an x / a y coordinate shorter than 32 bytes; every offered "
+        "text is classed by the reference (address, own prefix with wrong payload length, key text, other prefix, standard segwit "
+        "lower / upper case, own HRP not standard, other HRP, no checksum) and every class must be offered. "
         "Non-trivial = non-empty script or text; distinct by the case tuple.")
 ASSUMPTIONS = [
-    "declared prefixes / HRP are read from the network object; for BTC, XTN, XRT, LTC, XLT, DOGE, DASH, ZEC they are additionally "
+    "declared prefixes / HRP / tags are what the network's public encoders write (address.for_p2pkh / for_p2sh / for_p2pkh_wit on a "
+    "fixed hash, wif_for_blob, sec_text_for_blob, bipNN_as_string; None or an exception = not declared), attributes of network.parse "
+    "only where no encoder shows the value; for BTC, XTN, XRT, LTC, XLT, DOGE, DASH, ZEC they are additionally "
     "compared with the published chainparams values, and for BTC / XTN with published address examples (genesis address, key-1 "
     "addresses, BIP173/BIP350 examples); a wrong but self-consistent prefix on any other network is not detectable",
     "reference encoders / decoders / script templates in vmon/refs (b58, bech32, keytext) are self-tested on every run",
@@ -47,8 +52,8 @@ ASSUMPTIONS = [
     "a text object that was shown to other networks / entry points before must be treated like a fresh one: a network must accept "
     "every Base58Check text with its prefix and a 20-byte body and every lower-case segwit text it would itself write, and "
     "accept nothing it would not write; upper / mixed-case bech32 may be accepted or rejected",
-    "results must not depend on what the caller did to dicts returned earlier (Contract.info(), info_for_script) and for_info "
-    "must not modify the dict it is given",
+    "results must not depend on what the caller did to dicts returned earlier (Contract.info(), info_for_script), nor on the "
+    "dict a caller passed to for_info earlier; whether for_info writes into the dict it is given is counted, not judged",
     "key histories: key.address(is_compressed=c) / key.hash160(is_compressed=c) speak about the encoding c of the key's point; "
     "with no argument or None they speak about the form the key object was made in: the form named in the constructor call, "
     "of the SEC bytes, of the WIF payload (33 bytes ending 01 = compressed, 32 bytes = uncompressed), compressed for BIP32/49/84 "
@@ -56,7 +61,9 @@ ASSUMPTIONS = [
     "override_network) the first default answer of the object fixes it; public_copy, the identity paths of a plain key and "
     "repeated queries keep it. BIP49 / BIP84 node addresses with an explicit form are the P2SH-P2WPKH / P2WPKH address of that "
     "encoding's hash",
-    "ku_output: the lines hash160, address, <SYM>_address, address_segwit, p2sh_segwit, p2sh_segwit_script speak about the "
+    "cross-network: 'that script' is the script the accepting network reads (a text of A whose version byte is B's version byte "
+    "for another kind is B's own text for B's script); B must accept exactly the texts the reference writes for B's declared prefixes",
+    "ku_output: hex lines are compared as bytes (letter case free); the lines hash160, address, <SYM>_address, address_segwit, p2sh_segwit, p2sh_segwit_script speak about the "
     "compressed encoding and the *_uncompressed lines about the uncompressed one (the output's own annotation); for BIP49 / BIP84 "
     "nodes 'address' is the node address; other lines, missing lines and an exception from ku_output are not judged here",
     "which object a text parser, a derivation or override_network returns is C18's / C09's subject: a history is only run when "
@@ -67,6 +74,7 @@ EXPLANATION = ("round trip, independent expected text, key address, acceptance-i
 TIMEOUT = {"quick": 900, "thorough": 3 * 3600}
 
 N = KT.N
+SE_X_SHORT, SE_Y_SHORT = 153, 122       # x(153 G) and y(122 G) are below 2^248: their 32-byte encodings start with a zero byte
 KINDS = ("p2pkh", "p2sh", "p2pkh_segwit", "p2sh_segwit", "p2tr")
 HLEN = {"p2pkh": 20, "p2sh": 20, "p2pkh_segwit": 20, "p2sh_segwit": 32, "p2tr": 32}
 PUBLISHED = {"BTC": KT.BTC, "XTN": KT.XTN}
@@ -104,11 +112,51 @@ def selftest(rec):
     out = {"b58_vectors": RB.selftest(), "bech32_vectors": R32.selftest(), "keytext_vectors": KT.selftest(), "bip32_vectors": RB32.selftest()}
     for se in (1, 2, N - 1, 0xdeadbeef):
         assert RB32.point(se) == KT.pubpoint(se)
+    # the two fixed secrets whose public point has a coordinate shorter than 32 bytes (fixed-width encoding matters)
+    assert KT.pubpoint(SE_X_SHORT)[0] < 1 << 248 <= KT.pubpoint(SE_X_SHORT)[1]
+    assert KT.pubpoint(SE_Y_SHORT)[1] < 1 << 248 <= KT.pubpoint(SE_Y_SHORT)[0]
+    assert len(KT.sec_of(KT.pubpoint(SE_X_SHORT), True)) == 33 and len(KT.sec_of(KT.pubpoint(SE_Y_SHORT), False)) == 65
     return out
 
 
 def rbytes(rng, n):
     return bytes(rng.randrange(256) for _ in range(n))
+
+
+_PARAMS = {}
+
+
+def params_for(net):
+    """prefixes / HRP / tags the network declares, read from what its public encoders write (address.for_p2pkh / for_p2sh /
+    for_p2pkh_wit, wif_for_blob, sec_text_for_blob, bipNN_as_string: None or an exception = not declared); the attributes of
+    network.parse (vmon.gen.nets.params_of) only fill in what no public encoder shows."""
+    if id(net) in _PARAMS and _PARAMS[id(net)][0] is net:
+        return _PARAMS[id(net)][1]
+    old = NETS.params_of(net)
+
+    def b58_prefix(f, body, *more):
+        st, t = observe(f, body, *more) if callable(f) else ("exc", None)
+        payload = RB.decode_check(t) if st == "ok" and isinstance(t, str) and t.isascii() else None
+        return payload[:-len(body)] if payload is not None and len(payload) >= len(body) and payload.endswith(body) else None
+
+    kw = {"symbol": getattr(net, "symbol", None) or old.symbol}
+    kw["p2pkh"] = b58_prefix(getattr(net.address, "for_p2pkh", None), b"\x11" * 20)
+    kw["p2sh"] = b58_prefix(getattr(net.address, "for_p2sh", None), b"\x11" * 20)
+    kw["wif"] = b58_prefix(getattr(net, "wif_for_blob", None), b"\x11" * 32)
+    st, t = observe(net.address.for_p2pkh_wit, b"\x11" * 20)
+    raw = R32.raw_decode(t) if st == "ok" and isinstance(t, str) else None
+    kw["hrp"] = raw[0] if raw else None
+    st, t = observe(net.sec_text_for_blob, b"\x02") if callable(getattr(net, "sec_text_for_blob", None)) else ("exc", None)
+    kw["sec_prefix"] = t[:-2] if st == "ok" and isinstance(t, str) and t.endswith("02") else None
+    for k in KT.BIP_KINDS:
+        fam, pp = k.split("_")
+        kw[k] = b58_prefix(getattr(net, fam + "_as_string", None), bytes(73) + b"\x11", pp == "prv")
+    for f in KT.Params.FIELDS:
+        if kw.get(f) is None:
+            kw[f] = getattr(old, f)
+    P = KT.Params(**kw)
+    _PARAMS[id(net)] = (net, P)
+    return P
 
 
 def builder(net, kind):
@@ -271,6 +319,7 @@ def check_kind(sym, net, P, kind, h, rec, alias=True):
     if st != "ok" or back != s:
         rec.violation("roundtrip.script_differs." + kind, case, back, s)
         return
+    rec.ev("roundtrip." + kind)
     rec.ev("contract.info")
     st, inf = observe(obj.info)
     if st != "ok" or not isinstance(inf, dict):
@@ -346,8 +395,8 @@ def check_alias(sym, net, kind, h, s, exp, obj, case, rec):
         rec.violation("alias.later_classification_shows_callers_edit", case, re, s)
         return
     if info != before:
-        rec.violation("alias.for_info_modifies_argument", case, info, before)
-        return
+        # not forbidden by the statement (only wrong later results are): counted, and the edited dict goes on being used below
+        rec.ev("alias.for_info_changed_the_dict_it_was_given")
     info.clear()
     info["type"] = "unknown"
     info["script"] = other
@@ -403,6 +452,8 @@ def check_key(sym, net, P, se, rec):
     case = {"op": "key", "net": sym, "se": se}
     rec.case(("key", sym, se))
     pt = KT.pubpoint(se)
+    if min(pt).bit_length() <= 248:
+        rec.ev("key.coordinate_with_leading_zero_byte")
     h = {True: KT.hash160(KT.sec_of(pt, True)), False: KT.hash160(KT.sec_of(pt, False))}
     exp = {c: KT.address_text(P, "p2pkh", h[c]) for c in (True, False)}
 
@@ -466,9 +517,9 @@ def check_key(sym, net, P, se, rec):
             st, got = observe(nd.address)
             if st != "ok" or got != want[fam]:
                 rec.violation("key.node_address_differs_from_reference." + fam, dict(case, what=what), got, want[fam])
-    rec.ev("electrum.address")
     st, w = observe(net.keys.electrum_private, master_private_key=se)
     if st == "ok":
+        rec.ev("electrum.address")
         st, got = observe(w.address)
         if st != "ok" or got != exp[False]:
             rec.violation("key.electrum_address_differs_from_reference", case, got, exp[False])
@@ -756,8 +807,10 @@ def run_key_history(sym, net, P, se, source, steps, rec, other_sym=None, other_n
             want = idn.ku_lines()
             for line in lines:
                 name, val = line[0], line[1]
+                cls = "hash160" if name.startswith("hash160") else "script" if name.endswith("script") else "address"
+                if name in want and cls != "address" and isinstance(val, str):
+                    val = val.lower()              # hex digits: the letter case carries nothing
                 if name in want and val != want[name]:
-                    cls = "hash160" if name.startswith("hash160") else "script" if name.endswith("script") else "address"
                     rec.violation("keyhist.ku_%s_line_differs_from_reference.%s.%s" % (cls, idn.fam, idn.origin), dict(here, line=name), val, want[name])
                     return
                 if name in want:
@@ -766,11 +819,11 @@ def run_key_history(sym, net, P, se, source, steps, rec, other_sym=None, other_n
             name, f = rest.split(".")
             rec.ev("keyhist.noise_call")
             if name in ("fingerprint", "sec", "sec_as_hex", "wif"):
-                observe(getattr(obj, name), **FORM_KW[f])
+                observe(lambda: getattr(obj, name)(**FORM_KW[f]))
             elif name == "repr":
                 observe(repr, obj)
             else:
-                observe(getattr(obj, name))
+                observe(lambda: getattr(obj, name)())
         else:
             if kind == "c":
                 rec.ev("keyhist.public_copy")
@@ -830,7 +883,7 @@ def run_keys(spec, rec, good):
     counter = [spec["slice"]]
     for sym, net in mine:
         rng = shard_rng(spec["seed"], PROPERTY, spec["tier"], "keys:" + sym)
-        P = NETS.params_of(net)
+        P = params_for(net)
         k = [s for s, _ in good].index(sym)
         other = good[(k + 1 + rng.randrange(len(good) - 1)) % len(good)]
         # a secret and its negative share the x coordinate; small secrets are shared by all networks of the shard
@@ -864,9 +917,32 @@ def accept_mech(A, default):
     return default
 
 
+def text_class(scripts, A, text):
+    """region of the text domain, by the reference analysis (the clause 'carries a payload of the right length' lives in the
+    wrong-length / invalid-segwit regions: they must be offered, and nothing of them accepted)."""
+    if A.payload is not None:
+        if any(A.kinds.get(k, ("", ""))[0] == "ok" for k in KT.B58_ADDR_KINDS):
+            return "b58_address"
+        if any(A.kinds.get(k) == ("bad", "length") for k in KT.B58_ADDR_KINDS):
+            return "b58_address_prefix_wrong_length"
+        return "b58_key_text" if A.kinds else "b58_other_prefix"
+    if A.checksummed:
+        if scripts:
+            return "segwit_standard" if text == text.lower() else "segwit_standard_upper"
+        return "segwit_own_hrp_not_standard" if A.kinds else "bech32_other_hrp"
+    return "not_checksummed"
+
+
+TEXT_CLASSES = ("b58_address", "b58_address_prefix_wrong_length", "b58_key_text", "b58_other_prefix", "segwit_standard",
+                "segwit_standard_upper", "segwit_own_hrp_not_standard", "bech32_other_hrp", "not_checksummed")
+
+
 def check_accept(sym, net, P, text, rec, cls=""):
     case = {"op": "accept", "net": sym, "text": "t:" + text}
     rec.case(("accept", sym, text), nontrivial=len(text) > 0)
+    scripts, A = KT.address_script(P, text)
+    tc = text_class(scripts, A, text)
+    rec.ev("accept.offered." + tc)
     rec.ev("parse.address")
     st, obj = observe(net.parse.address, text)
     if st != "ok":
@@ -876,7 +952,7 @@ def check_accept(sym, net, P, text, rec, cls=""):
         rec.ev("parse.address.rejects")
         return
     rec.ev("parse.address.accepts")
-    scripts, A = KT.address_script(P, text)
+    rec.ev("accept.accepted." + tc)
     st, sc = observe(obj.script)
     if st != "ok":
         rec.violation(accept_mech(A, "address.accepted_contract_has_no_script"), case, sc, sorted(scripts))
@@ -945,7 +1021,7 @@ def run_nets(spec, rec, good):
     scale = spec.get("scale", 1)
     for sym, net in mine:
         rng = shard_rng(spec["seed"], PROPERTY, spec["tier"], sym)
-        P = NETS.params_of(net)
+        P = params_for(net)
         rec.require("net." + sym)
         if sym in PUBLISHED_PREFIXES:
             check_published(sym, net, P, rec)
@@ -960,13 +1036,13 @@ def run_nets(spec, rec, good):
             for h in hashes:
                 check_kind(sym, net, P, kind, h, rec)
         # Base58 addresses that begin like another text format of this (or a sibling) network
-        all_hrps = sorted({NETS.params_of(n).hrp for _, n in good} - {None})
+        all_hrps = sorted({params_for(n).hrp for _, n in good} - {None})
         for kind, h, cls, word in shaped_hashes(P, all_hrps, rng, per_word=1 if scale <= 4 else 8):
             rec.ev("shaped_text." + cls)
             if cls == "hrp" and word.lower() == (P.hrp or "") + "1":
                 rec.ev("shaped_text.own_hrp")
             check_kind(sym, net, P, kind, h, rec, alias=False)
-        for se in [1, 2, N - 1] + [rng.randrange(1, N) for _ in range(2 * scale)]:
+        for se in [1, 2, N - 1, SE_Y_SHORT, SE_X_SHORT] + [rng.randrange(1, N) for _ in range(2 * scale)]:
             check_key(sym, net, P, se, rec)
         for text in accept_workload(P, rng, scale):
             check_accept(sym, net, P, text, rec)
@@ -983,20 +1059,33 @@ def run_nets(spec, rec, good):
 # (v) cross-network acceptance
 
 def check_cross(a_sym, b_sym, b_net, PB, kind, text, rec):
+    """text = a canonical address text of A (Base58Check, or lower-case segwit). B may accept it only as a text B itself
+    writes: the script B reads must be what the reference model of B reads, and B's text for that script must be this text."""
     case = {"op": "cross", "from": a_sym, "net": b_sym, "kind": kind, "text": "t:" + text}
     rec.case(("cross", a_sym, b_sym, kind, text))
     rec.ev("cross.parse.address")
+    scripts, A = KT.address_script(PB, text)           # what the text denotes on B by B's declared prefixes (often nothing)
+    if scripts:
+        rec.ev("cross.text_is_also_the_other_networks")
     st, obj = observe(b_net.parse.address, text)
     if st != "ok" or obj is None:
         rec.ev("cross.rejected")
+        if scripts:
+            # the round trip on B: this is the very text B writes for that script
+            rec.violation("cross.rejects_address_it_writes_itself", case, obj, sorted(scripts))
         return
     st, sc = observe(obj.script)
     st2, t2 = observe(b_net.address.for_script, sc) if st == "ok" else ("exc", None)
     if st != "ok" or st2 != "ok" or t2 != text:
-        _, A = KT.address_script(PB, text)
         rec.violation(accept_mech(A, "cross.accepts_address_it_would_not_produce"), case, [sc, t2], text)
         return
+    if sc not in scripts:
+        # B's parser and B's encoder agree with each other, but not with what B declares
+        rec.violation(accept_mech(A, "cross.accepts_address_the_reference_would_not_produce"), case, [sc, t2], sorted(scripts))
+        return
     rec.ev("cross.shared_encoding")
+    if A.kinds.get(kind, ("", None))[0] != "ok":
+        rec.ev("cross.shared_text_other_kind")          # e.g. A's P2PKH version byte is B's P2SH version byte
 
 
 def check_override(a_sym, a_net, b_sym, b_net, PB, kind, h, text, rec):
@@ -1027,7 +1116,7 @@ def check_override(a_sym, a_net, b_sym, b_net, PB, kind, h, text, rec):
 
 def run_cross(spec, rec, good):
     scale = spec.get("scale", 1)
-    params = {sym: NETS.params_of(net) for sym, net in good}
+    params = {sym: params_for(net) for sym, net in good}
     mine = good[spec["slice"]::spec["of"]]
     for a_sym, a_net in mine:
         rng = shard_rng(spec["seed"], PROPERTY, "cross", a_sym)
@@ -1048,7 +1137,8 @@ def run_cross(spec, rec, good):
                 check_cross(a_sym, b_sym, b_net, params[b_sym], kind, t, rec)
             for kind, (h, t) in first.items():
                 check_override(a_sym, a_net, b_sym, b_net, params[b_sym], kind, h, t, rec)
-    rec.require("cross.pair", "cross.parse.address", "contract.override_network")
+    rec.require("cross.pair", "cross.parse.address", "contract.override_network", "cross.rejected", "cross.shared_encoding",
+                "cross.text_is_also_the_other_networks")
     if spec["slice"] == 0:
         n = len(good)
         rec.note("cross-network: %d usable networks, %d ordered pairs over all cross shards" % (n, n * (n - 1)))
@@ -1150,7 +1240,7 @@ def related_networks(a_sym, good, params):
 def run_reuse(spec, rec, good):
     scale = spec.get("scale", 1)
     nets = dict(good)
-    params = {sym: NETS.params_of(net) for sym, net in good}
+    params = {sym: params_for(net) for sym, net in good}
     syms = [s for s, _ in good]
     all_hrps = sorted({p.hrp for p in params.values()} - {None})
     mine = good[spec["slice"]::spec["of"]]
@@ -1217,6 +1307,9 @@ def enc_push(data, form):
     if form == "pd4":
         return b"\x4e" + n.to_bytes(4, "little") + data
     return KT.push(data)
+
+
+TEMPLATES = ("p2pkh", "p2sh", "p2pkh_wit", "p2sh_wit", "p2tr", "p2pk", "nulldata", "multisig")
 
 
 def template_items(rng):
@@ -1358,6 +1451,10 @@ def check_classify(sym, net, s, rec, cls=""):
         rec.violation(classify_mech(s, rebuilt, info), case, rebuilt, s)
         return
     rec.ev("classify.faithful")
+    if cls.startswith("canonical."):
+        rec.ev("classify.faithful." + cls)
+    elif cls:
+        rec.ev("classify.variant_reported_standard")
 
 
 def run_classify(spec, rec, good):
@@ -1378,7 +1475,10 @@ def run_classify(spec, rec, good):
             check_classify(sym, net, s, rec, cls)
             done += 1
     rec.require("contract.info_for_script", "contract.for_info", "classify.faithful", "class.noncanonical_push", "class.opcode_altered",
-                "class.trailing_bytes", "class.random_bytes")
+                "class.trailing_bytes", "class.random_bytes", "class.leading_bytes", "class.truncated", "class.data_length",
+                "class.const_as_push", "class.multisig_counts", "class.random_ops", "classified.unknown", "classify.variant_reported_standard")
+    # the fidelity clause was decided on a reported-standard script of every template (else it held vacuously for that kind)
+    rec.require(*["classify.faithful.canonical." + t for t in TEMPLATES])
     rec.sample({"op": "classify", "example": "p2pkh with PUSHDATA1 push", "script": b"\x76\xa9\x4c\x14" + bytes(20) + b"\x88\xac"}, limit=1)
 
 
@@ -1394,7 +1494,12 @@ def run_shard(spec, rec):
     if spec["kind"] == "nets":
         rec.require("address.for_script", "parse.address", "contract.info_for_script", "contract.for_info", "key.address",
                     "bip49.address", "bip84.address", "parse.address.accepts", "parse.address.rejects", "address.direct_encoders",
-                    "parse.entry.kind", "parse.entry.payable", "parse.entry.call", "alias.history", "shaped_text.sec_tag")
+                    "parse.entry.kind", "parse.entry.payable", "parse.entry.call", "alias.history", "shaped_text.sec_tag",
+                    "contract.script", "contract.address", "contract.for_address", "contract.for_p2s", "bip32.address", "electrum.address",
+                    "key.hash160", "key.coordinate_with_leading_zero_byte", "published_prefixes", "published_vector", "accept.accepted.b58_address", "accept.accepted.segwit_standard")
+        rec.require(*["accept.offered." + c for c in TEXT_CLASSES])
+        # every listed kind went the whole way script -> text -> script on some network (BTC declares all five)
+        rec.require(*["roundtrip." + k for k in KINDS])
         if any(sym == "LTC" for sym, _ in good[spec["slice"]::spec["of"]]):
             # LTC: version 0x30 ('L...') and HRP 'ltc' are published values, so 'LTC1...' P2PKH addresses exist
             rec.require("shaped_text.own_hrp")
@@ -1412,7 +1517,7 @@ def replay_case(case, rec):
     from pycoin.networks.registry import network_for_netcode
     net = network_for_netcode(case["net"])
     sym = case["net"]
-    P = NETS.params_of(net)
+    P = params_for(net)
     op = case["op"]
     if op == "kind":
         check_kind(sym, net, P, case["kind"], case["h"], rec)
@@ -1433,7 +1538,7 @@ def replay_case(case, rec):
     elif op == "reuse":
         steps = [tuple(x.split(":")) for x in case["steps"].split()]
         nets = {s: network_for_netcode(s) for s, _ in steps}
-        run_history(_text(case["text"]), case["carrier"], steps, nets, {s: NETS.params_of(n) for s, n in nets.items()}, rec, case.get("origin", ""))
+        run_history(_text(case["text"]), case["carrier"], steps, nets, {s: params_for(n) for s, n in nets.items()}, rec, case.get("origin", ""))
     elif op == "classify":
         s = case["script"]
         check_classify(sym, net, s if isinstance(s, bytes) else b"", rec)
